@@ -29,7 +29,7 @@ func init() {
 	register(&Prop{
 		ID:    "C08",
 		Level: "exploration",
-		Rule:  "seed-generated word-list inputs weighted towards lists holding a word together with its capitalised twin (with and without genuinely uncapitalisable neighbours), pre-capitalised-only and caseless-only lists, x all five schemes x constant/preset/constructed/user-written separators x lengths 1-9. Each input is constructed 64 times in-process (same slice, permutations, repetitions), Entropy() is called repeatedly on each, and the same inputs are evaluated in 4 fresh child processes; all values for one (word set, recipe) must be bit-identical and equal the documented formula. evaluations = Entropy() calls; distinct_nontrivial = distinct (word set, recipe) pairs whose list contains a title-case twin or an uncapitalisable word",
+		Rule:  "seed-generated word-list inputs weighted towards lists holding a word together with its capitalised twin (with and without genuinely uncapitalisable neighbours), pre-capitalised-only and caseless-only lists, lists holding the empty string beside capitalisable words, x all five schemes x constant/preset/constructed/user-written separators x lengths 1-9. Each input is constructed 64 times in-process (same slice, permutations, repetitions), Entropy() is called repeatedly on each, and the same inputs are evaluated in 4 fresh child processes; all values for one (word set, recipe) must be bit-identical and equal the documented formula. evaluations = Entropy() calls; distinct_nontrivial = distinct (word set, recipe) pairs whose list contains a title-case twin or an uncapitalisable word",
 		Assumptions: []string{
 			"formula: L*log2(kept) + [every kept word changes under title-casing]*(L for random, log2 L for one) + (L-1)*sepEnt, kept words from the reference normalisation, sepEnt = the value the separator function itself declares (observed by calling it)",
 			"tolerance for the formula: 4 float32 ulps of max(|E|,1) (three float32 operations in the published value); determinism is bit-exact",
@@ -166,11 +166,33 @@ func c08Case(c *Ctx) {
 		c08BigList(c)
 	}
 	_, per := c08Counts(c.Tier)
+	// two more inputs per case, derived from the first two after all generated ones have been examined (so those
+	// are the same with and without them): the capitalisable words of that input plus the empty string, which
+	// is a word that does not change under title-casing, with the two schemes that credit capitalisation
+	gens := per
+	per += 2
 	ins := make([]WLCase, per)
 	first := make([]uint32, per)
 	okIn := make([]bool, per)
 	for k := 0; k < per; k++ {
-		w := c08Gen(c.R)
+		var w WLCase
+		if k < gens {
+			w = c08Gen(c.R)
+		} else {
+			w = ins[k-gens]
+			words := []string{""}
+			for _, x := range w.Words {
+				if utf8.ValidString(x) && oracle.Title(x) != x {
+					words = append(words, x)
+				}
+			}
+			if len(words) < 2 {
+				words = append(words, "apple", "cherry", "damson")
+			}
+			w.Words = words
+			w.Scheme = []string{"random", "one"}[k-gens]
+			c.Count("lists_with_empty_word", 1)
+		}
 		ins[k] = w
 		kept := oracle.Normalize(w.Words)
 		b, err := w.Build()
